@@ -221,7 +221,9 @@ impl<T: ContentType> State<T> {
                         header.properties,
                     )))
                 } else {
-                    let buf = Vec::with_capacity(header.body_size as usize);
+                    // body_size is whatever the server announced; let the buffer grow as
+                    // body frames actually arrive instead of trusting it for an allocation
+                    let buf = Vec::new();
                     Ok(Content::NeedMore(State::Body(start, header, buf)))
                 }
             }
